@@ -403,14 +403,15 @@ def endsWithSlash (p : Str) : Bool :=
 /-- `path[len(objectPath):].partition('/')[0]` -/
 def firstElement (rest : Str) : Str := rest.takeWhile (· ≠ '/')
 
-/-- the `matches` loop: distinct first path elements below `objectPath` (already ending in '/'),
-in the iteration order of the dict -/
+/-- the `matches` loop: distinct non-empty first path elements below `objectPath` (already ending in
+'/'), in the iteration order of the dict (`if path and path not in matches`, after repair 054ae54: the
+root object's own path leaves an empty remainder and is not a child) -/
 def childMatches (prefixSlash : Str) : List Str → List Str → List Str
   | [], acc => acc
   | path :: ps, acc =>
     if prefixSlash.isPrefixOf path then
       let c := firstElement (path.drop prefixSlash.length)
-      if c ∈ acc then childMatches prefixSlash ps acc else childMatches prefixSlash ps (acc ++ [c])
+      if c.isEmpty || c ∈ acc then childMatches prefixSlash ps acc else childMatches prefixSlash ps (acc ++ [c])
     else childMatches prefixSlash ps acc
 
 def childEvents : List Str → List Event
